@@ -7,3 +7,6 @@ open Golem.Props.C07
 #print axioms try_partition
 #print axioms tryF_partition
 #print axioms try_closes
+#print axioms emit_lift_first_failure
+#print axioms emit_try_partition
+#print axioms unfold_lift_first_failure
